@@ -7,7 +7,7 @@
 //!  * `insert`, `remove`, `remove_remote`, `remove_lane`, `remove_all_links` (iterators consumed);
 //!  * `count_broadcast(l)` – an event sent to every link of `l`: |links(l)| deliveries;
 //!  * `count_single(l)`    – an event sent to one link of `l` (only generated while `l` has a link);
-//!  * `targeted(l, r)`     – what `handle_event` does for a targeted response: `count_single(l)`,
+//!  * `targeted(l, r)`     – what `handle_event` does for a targeted response: implicit insert, then `count_single(l)`,
 //!    then the implicit `insert(l, r)` if `r` is not linked: one delivery either way.
 //!
 //! After every operation every registered lane reader and the aggregate reader are snapshotted:
@@ -318,11 +318,12 @@ impl Exec {
             LOp::CountSingle(l) => self.links.count_single(lane_id(l)),
             LOp::CountBroadcast(l) => self.links.count_broadcast(lane_id(l)),
             LOp::Targeted(l, r) => {
-                // As `WriteTaskState::handle_event` for a targeted response.
-                self.links.count_single(lane_id(l));
+                // As `WriteTaskState::handle_event` for a targeted response: the implicit link is
+                // made first, then the response is counted.
                 if !self.links.is_linked(remote_id(r), lane_id(l)) {
                     self.links.insert(lane_id(l), remote_id(r));
                 }
+                self.links.count_single(lane_id(l));
                 self.entry[l as usize] = Entry::Present;
             }
         }
